@@ -147,3 +147,177 @@ def check_c08(tier, replay):
     vlib.write_evidence(prop, tier, "model_checking", cover, assumptions,
                         time.time() - t0, len(summ["violations"]))
     return vlib.finish(prop, summ["violations"], known_hits)
+
+
+# ---------------------------------------------------------------------------
+# C06 / C07  EventLog.tla  <->  BackendEventLog (fs + sqlite in lock-step)
+
+C07_ACTS = {"PatchChecked", "RewindPatch", "ReplaceAll", "RewindRollback"}
+EL_ACTIONS = ["AApply1", "AApply2", "APatchUnchecked", "APatchChecked", "ARewind",
+              "ARewindRollback", "ARewindPatch", "AClear", "AReplaceAll", "AReopen"]
+
+
+def eventlog_check(prop, tier, replay):
+    import random
+    t0 = time.time()
+    wd = vlib.workdir("%s_%s" % (prop, tier))
+    known = vlib.known_keys(prop)
+    rng = random.Random(vlib.seed())
+    logs = ["l1", "l2", "l3"]
+    if replay:
+        vlib.cargo_build()
+        v = json.load(open(replay))
+        d = v.get("detail", v)
+        pfile = os.path.join(wd, "replay.ndjson")
+        with open(pfile, "w") as f:
+            f.write(json.dumps(d["path"]) + "\n")
+        summ = vlib.run_harness([vlib.harness_bin("replay"), "eventlog", pfile,
+                                 d.get("kind_map", "folder"), "fs,db", os.path.join(wd, "scratch"), prop])
+        for x in summ["violations"]:
+            log("REPLAY-DIVERGENCE " + x["summary"][:1500])
+        return 1 if summ["violations"] else 0
+    consts = {"Logs": '{"l1", "l2", "l3"}', "Terms": '{"x", "y"}', "MaxLen": "3", "MaxTotal": "3"}
+    terms = ["x", "y"]
+    sim = None
+    if tier == "thorough":
+        consts["MaxTotal"] = "4"
+    # (1) model check the intended spec (properties as invariants / action properties)
+    cfg = vlib.render_cfg("MC_EventLog.cfg", dict(consts, EmitEdges="FALSE"),
+                          os.path.join(wd, "prop.cfg"))
+    r = vlib.run_tlc("MC_EventLog", cfg, prop + "p", timeout_s=1200)
+    if r.violated:
+        raise ToolError("intended EventLog spec violates %s" % r.violated)
+    for a in EL_ACTIONS:
+        if a not in r.coverage or r.coverage[a][1] == 0:
+            raise ToolError("vacuous: action %s never fired (coverage %s)" % (a, r.coverage.get(a)))
+    states, trans = r.distinct, r.generated
+    cov = {k: list(v) for k, v in r.coverage.items() if k in EL_ACTIONS}
+    # (2) emit every edge of the reachable graph
+    g = vlib.Graph()
+    cfg = vlib.render_cfg("MC_EventLog.cfg", dict(consts, EmitEdges="TRUE"),
+                          os.path.join(wd, "emit.cfg"))
+    txt = open(cfg).read().replace("PROPERTIES\n  Isolation\n  RefusedUnchanged\n  AppendOrCut\n", "")
+    open(cfg, "w").write(txt)
+    vlib.run_tlc("MC_EventLog", cfg, prop + "e", coverage=False, timeout_s=1800,
+                 tag_sink=lambda tag, obj: g.add(obj) if tag == "EDGE" else None)
+    if not g.edges:
+        raise ToolError("TLC emitted no edges")
+    init = {"store": {l: [] for l in logs}, "tree": {l: [] for l in logs}}
+    flt = None
+    if tier == "quick":
+        # quick: one representative per (source state, action, log, outcome, target state);
+        # thorough covers every argument combination
+        reps = {}
+        for i, (s_, d_, st) in enumerate(g.edges):
+            k = (s_, d_, st["act"], st["args"][0], st["last"][0])
+            if prop == "C07" and st["act"] in C07_ACTS:
+                k = k + (json.dumps(st["args"][1:]),)
+            reps.setdefault(k, i)
+        keep = set(reps.values())
+        idx_of = {id(st): i for i, (_, _, st) in enumerate(g.edges)}
+        flt = lambda e: idx_of[id(e)] in keep
+    paths, covered, wanted = vlib.transition_tour(g, init, max_len=120, rng=rng, edge_filter=flt)
+    if covered < wanted:
+        raise ToolError("transition tour covered %d of %d edges" % (covered, wanted))
+    # thorough: additional random walks over a bigger alphabet by simulation
+    extra_paths = []
+    if tier == "thorough":
+        sim_consts = dict(consts, Terms='{"x", "y", "z"}', MaxLen="5", MaxTotal="9", EmitEdges="TRUE")
+        cfg = vlib.render_cfg("MC_EventLog.cfg", sim_consts, os.path.join(wd, "sim.cfg"))
+        txt = open(cfg).read().replace("PROPERTIES\n  Isolation\n  RefusedUnchanged\n  AppendOrCut\n", "")
+        open(cfg, "w").write(txt)
+        cur = []
+        prev_to = [None]
+
+        def sink(tag, obj):
+            if tag != "EDGE":
+                return
+            k = json.dumps(obj["from"], sort_keys=True)
+            if prev_to[0] is None or k != prev_to[0]:
+                if cur:
+                    extra_paths.append(list(cur))
+                    del cur[:]
+            cur.append({x: y for x, y in obj.items() if x != "from"} | {"from": obj["from"]})
+            prev_to[0] = json.dumps(obj["to"], sort_keys=True)
+        vlib.run_tlc("MC_EventLog", cfg, prop + "s", coverage=False, workers=1, simulate=(400, 60),
+                     timeout_s=300, tag_sink=sink)
+        if cur:
+            extra_paths.append(list(cur))
+        init_k = json.dumps(init, sort_keys=True)
+        extra_paths = [p for p in extra_paths if json.dumps(p[0]["from"], sort_keys=True) == init_k]
+        terms3 = ["x", "y", "z"]
+    # (3) write behaviours, one per line, chunked for parallel replay
+    vlib.cargo_build()
+    kind_maps = ["folder", "account", "device"]
+    chunks = 12
+    files = [open(os.path.join(wd, "paths_%02d.ndjson" % i), "w") for i in range(chunks)]
+    n = 0
+    for p in paths:
+        steps = [dict(g.edges[ei][2], **{"from": g.nodes[g.edges[ei][0]]}) for ei in p]
+        files[n % chunks].write(json.dumps({"logs": logs, "terms": terms, "steps": steps}) + "\n")
+        n += 1
+    for p in extra_paths:
+        files[n % chunks].write(json.dumps({"logs": logs, "terms": terms3, "steps": p}) + "\n")
+        n += 1
+    for f in files:
+        f.close()
+    jobs = []
+    scratch = vlib.scratch_base(prop)
+    maps = kind_maps if tier == "thorough" else [kind_maps[vlib.seed() % 3], "folder"]
+    maps = sorted(set(maps))
+    for km in maps:
+        for i in range(chunks):
+            pth = os.path.join(wd, "paths_%02d.ndjson" % i)
+            if os.path.getsize(pth) > 0:
+                jobs.append((pth, km, os.path.join(scratch, "%s_%02d" % (km, i))))
+    summ = vlib.run_harness_parallel(
+        lambda j: [vlib.harness_bin("replay"), "eventlog", j[0], j[1], "fs,db", j[2], prop], jobs,
+        jobs=12, timeout_s=3000)
+
+    def act_of(v):
+        d = v.get("detail", {})
+        try:
+            return d["path"]["steps"][d["step"]]["act"]
+        except Exception:
+            return "?"
+    if prop == "C07":
+        viol = [v for v in summ["violations"] if act_of(v) in C07_ACTS]
+    else:
+        viol = [v for v in summ["violations"] if act_of(v) not in C07_ACTS or "last" not in v["summary"][:40]]
+    steps_total = sum(len(p) for p in paths) + sum(len(p) for p in extra_paths)
+    cover = {
+        "states": states, "transitions": trans,
+        "traces_validated_against_impl": summ["evaluated"],
+        "evaluations": summ["evaluated"], "impl_steps_compared": summ["steps"],
+        "distinct_nontrivial": len(set(summ["nontrivial_keys"])),
+        "rule": "TLC enumerates the whole reachable graph of EventLog.tla for the instance; a transition "
+                "tour (every edge at least once) is replayed on real file-system and sqlite event logs in "
+                "lock-step for the kind maps %s; after every step the record streams, trees, re-opened "
+                "trees, diff_records answers and the call result are compared with the spec state. "
+                "Non-trivial = behaviour with at least one state-changing or refused step; distinct by "
+                "action/argument sequence." % maps,
+        "exhaustive": tier == "quick" or not extra_paths,
+        "graph_edges": len(g.edges), "tour_paths": len(paths), "tour_steps": steps_total,
+        "edges_covered": covered, "simulated_paths": len(extra_paths),
+        "constants": consts, "kind_maps": maps, "backends": ["fs", "db"],
+        "action_coverage": cov,
+        "samples": summ["samples"][:3],
+        "model_mismatches": len(summ["mismatches"]),
+    }
+    assumptions = ["CommitTree.tla lemmas (compare/root are functions of the leaf sequence)",
+                   "harness/src/eventlog_world.rs projection; RewindPatch/RewindRollback mirror the two-line "
+                   "rollback idiom of server_helpers::rollback_rewind at log level (the real function is "
+                   "exercised by the Sync world)"]
+    vlib.write_evidence(prop, tier, "model_checking", cover, assumptions, time.time() - t0, len(viol))
+    known_hits = [dict(known[k["key"]], **k) for k in summ["known"] if k["key"] in known]
+    return vlib.finish(prop, viol, known_hits)
+
+
+@register("C06")
+def check_c06(tier, replay):
+    return eventlog_check("C06", tier, replay)
+
+
+@register("C07")
+def check_c07(tier, replay):
+    return eventlog_check("C07", tier, replay)
